@@ -718,6 +718,18 @@ fn vnet_dyn(ctx: &mut Ctx, n: usize, features: u64, buf_len: usize, nops: usize,
         8 => vnet::<8>(ctx, features, buf_len, nops, mode), 16 => vnet::<16>(ctx, features, buf_len, nops, mode), _ => vnet::<64>(ctx, features, buf_len, nops, mode) }
 }
 
+/// C04 at driver level: the buffered network driver re-posts receive buffers under whatever token the queue hands out; each
+/// buffer must be unshared with its own range and the address its own share returned, whatever the order in which the caller
+/// gives buffers back (ledger line of every history)
+pub fn run_recycle(ctx: &mut Ctx) {
+    for (i, feats) in [0u64, F_V1, F_V1 | F_IND, F_V1 | F_EVT].iter().enumerate() {
+        for n in [4usize, 8] {
+            ctx.tr.scenario(&format!("c04-vnet-recycle-{}-n{}", i, n));
+            vnet_dyn(ctx, n, *feats, 1528, 80 + 10 * n, 0);
+        }
+    }
+}
+
 pub fn run(ctx: &mut Ctx) {
     let base = [0u64, F_V1, F_IND, F_V1 | F_IND, F_EVT, F_V1 | F_EVT, F_V1 | F_IND | F_EVT, F_IND | F_EVT];
     let reps = ctx.budget(8, 8);
@@ -736,7 +748,8 @@ pub fn run(ctx: &mut Ctx) {
             vnet_dyn(ctx, n, feats, bl, 60 + 6 * n.min(16), 0);
         }
         // buffer lengths around MIN_BUFFER_LEN and its rounding
-        for bl in [0usize, 7, 1519, 1520, 1525, 1526, 1527, 1528, 1529, 65535] {
+        // ... and beyond 2^16 (lengths are usize / u32 everywhere: a frame of 65536 bytes and more must come back whole)
+        for bl in [0usize, 7, 1519, 1520, 1525, 1526, 1527, 1528, 1529, 65535, 65536, 65560, 70000] {
             ctx.tr.scenario(&format!("c16-vnet-buflen-r{}-b{}", rep, bl));
             vnet_dyn(ctx, 4, if bl % 2 == 0 { F_V1 } else { 0 }, bl, 30, 0);
         }
